@@ -355,6 +355,67 @@ func runSTLASCII(src *choice.Source, st *Stats) (fs []Finding) {
 			fs = append(fs, *f)
 		}
 	}
+	if len(fs) > 0 || !src.Chance(1, 5) {
+		return
+	}
+	// (drawn last) very long lines: the format has no line-length limit, and files
+	// in the wild carry whole paths or base64 blobs as the solid's name and lines
+	// padded with blanks.  Lengths around the usual buffer sizes of line readers.
+	n := []int{4095, 4096, 4097, 65535, 65536, 65537, 70000, 1 << 17}[src.Intn(8)]
+	where := src.Intn(4) // 0 name, 1 trailing blanks on a body line, 2 leading blanks, 3 blanks between tokens
+	target := 0
+	if len(tris) > 0 {
+		target = src.Intn(len(tris) * 7)
+	}
+	var lb strings.Builder
+	lineNo := 0
+	bodyLine := func(toks ...string) {
+		pre, gap, post := "", " ", ""
+		if lineNo == target {
+			switch where {
+			case 1:
+				post = strings.Repeat(" ", n)
+			case 2:
+				pre = strings.Repeat(" ", n)
+			case 3:
+				gap = strings.Repeat(" ", n)
+			}
+		}
+		lineNo++
+		lb.WriteString(pre + strings.Join(toks, gap) + post + "\n")
+	}
+	nm := ""
+	if where == 0 || len(tris) == 0 {
+		nm = " " + strings.Repeat("x", n)
+	}
+	lb.WriteString("solid" + nm + "\n")
+	for _, t := range tris {
+		bodyLine("facet", "normal", "0", "0", "1")
+		bodyLine("outer", "loop")
+		for _, v := range t {
+			bodyLine("vertex", fmt32(float32(v.X), true), fmt32(float32(v.Y), true), fmt32(float32(v.Z), true))
+		}
+		bodyLine("endloop")
+		bodyLine("endfacet")
+	}
+	lb.WriteString("endsolid" + nm + "\n")
+	ldata := []byte(lb.String())
+	st.Files++
+	st.Bytes += int64(len(ldata))
+	st.shape(fmt.Sprintf("ascii-stl long line where=%d", where))
+	for _, d := range deliveries(src, len(ldata))[:2] {
+		r := simio.NewReader(ldata, d)
+		got, err := model3d.ReadSTL(r)
+		st.account(r)
+		if err != nil {
+			fs = append(fs, Finding{"stl_ascii|long-line-read-error", fmt.Sprintf("delivery %+v: a line of %d bytes (case %d): %v", d, n, where, err)})
+			continue
+		}
+		if f := compareTris("stl_ascii|long-line", tris, got, round32); f != nil {
+			f.Msg = fmt.Sprintf("delivery %+v: a line of %d bytes (case %d): %s", d, n, where, f.Msg)
+			fs = append(fs, *f)
+		}
+	}
 	return
 }
 
